@@ -28,12 +28,14 @@ def canonq(q):
 def gen_accept():
     http = importlib.import_module("werkzeug.http")
     acc = importlib.import_module("werkzeug.datastructures.accept")
-    # parse_accept_header("a;q=<s>") for every s of length 1..4 over a small alphabet:
+    # parse_accept_header("a;q=<s>") for every s of length 1..3 over a small alphabet, and the length-4 texts starting 0. 1. -0 -1:
     # exercises _q_value_re, float() and the range check together
     rows = []
-    for n in range(1, 5):
-        for tup in itertools.product(Q_ALPHABET, repeat=n):
-            s = "".join(tup)
+    texts = ["".join(t) for n in range(1, 4) for t in itertools.product(Q_ALPHABET, repeat=n)]
+    # length 4: the decimal shapes only (the kernel needs ~30 ms per row)
+    texts += [p + "".join(t) for p in ("0.", "1.", "-0", "-1") for t in itertools.product(Q_ALPHABET, repeat=2)]
+    for s in texts:
+        if True:
             res = list(http.parse_accept_header("a;q=" + s))
             if not res:
                 rows.append(f"({lean_chars(s)}, none)")
@@ -46,7 +48,7 @@ def gen_accept():
     mime_ws = [bool(acc._mime_split_re.fullmatch(chr(c) + ";" + chr(c))) for c in range(256)]
     body = f"""namespace Wz.Gen.AcceptTbl
 
-/-- `parse_accept_header("a;q=" + s)` for every `s` of length 1..4 over `{Q_ALPHABET}`:
+/-- `parse_accept_header("a;q=" + s)` for every `s` of length 1..3 over `{Q_ALPHABET}` and the length-4 texts starting `0.` `1.` `-0` `-1`:
 `none` = the item is dropped, `some (num, scale)` = kept with q = num / 10^scale (normalised). -/
 def qTable : List (List Char × Option (Nat × Nat)) := {lean_list(rows, 4)}
 
